@@ -192,7 +192,7 @@ KEEP = [
     # (module, rule substring, key substrings or None)
     ("C03.g IVL-WF", None),
     ("C03.e PRUNE-FORM", ("max-length", "unknown-mask")),
-    ("C03.h IGNORE-POINT", ("sorted", "formatter-type")),
+    ("C03.h IGNORE-POINT", None),
     ("C03.c BELLMAN", ("initial-starts",)),
     ("C02.f BACKTRACK", None),
     ("C02.c IDX-GATHER", ("back-pointer",)),
